@@ -57,12 +57,18 @@ class C01(C03):
 
     def corpus(self, ctx):
         cyclopropene_me = _mol([('C', 0, False)] * 4, [(0, 1, 1), (0, 2, 1), (2, 3, 1), (3, 0, 2)])
+        toluene = _mol([('C', 0, False)] + [('C', 0, True)] * 6,
+                       [(0, 1, 1)] + [(1 + i, 1 + (i + 1) % 6, 1.5) for i in range(6)])
         return [
             # descriptor after a ring digit that carries a ring-bond symbol (DESIGN 5 row 12)
             {'s': '{[#A][#B]}.{#A=C=1[$a]CC1,#B=[$a]C}', 'single': '{[#M]}.{#M=C=1(C)CC1}', 'mol': cyclopropene_me,
              'cutinfo': {'0-1': [[0, '$a1', 3, '$a1']]}},
             {'s': '{[#A][#B]}.{#A=C[$a]=1CC1,#B=[$a]C}', 'single': '{[#M]}.{#M=C=1(C)CC1}', 'mol': cyclopropene_me,
              'cutinfo': {'0-1': [[0, '$a1', 3, '$a1']]}},
+            # aromatic rings written as Kekule structures in every fragment (no lower-case atom anywhere)
+            {'s': '{[#A][#B]}.{#A=C1=CC=CC=C1[$a],#B=[$a]C}', 'single': '{[#M]}.{#M=Cc1ccccc1}', 'mol': toluene, 'kekule': True},
+            {'s': '{[#A]=[#B]}.{#A=[$a]C=CC=[$b],#B=[$a]C(C)=CC=[$b]}', 'single': '{[#M]}.{#M=CC1=CC=CC=C1}', 'mol': toluene, 'kekule': True},
+            {'s': '{[#B]=[#A]}.{#A=[$a]=CC=C[$b],#B=[$a]=C(C)C=C[$b]}', 'single': '{[#M]}.{#M=Cc1ccccc1}', 'mol': toluene, 'kekule': True},
         ]
 
     def generate(self, ctx, n):
@@ -124,6 +130,8 @@ class C01(C03):
             tags.append('aromatic-cut')
         if '+]' in s or '-]' in s:
             tags.append('charged')
+        if case.get('kekule'):
+            tags.append('kekule-written-ring')
         return ' '.join(tags)
 
     def known_class(self, case, impl, code):
